@@ -907,6 +907,9 @@ structure J16 where
   prodAcks : Int := 1
   prodTimeout : Int := 30000
   consRetryLimit : Int := 0
+  /-- fetch sizes that were in force on the consumer earlier (replaced by a setter on its client after creation): a partition
+      keeps asking with the size it was created with until data arrives for it (the statement is about the object as built) -/
+  consMaxBefore : List Int := []
   out : List String := []
 
 def judgeC16 (ops : List OpRec) : List String :=
@@ -917,7 +920,9 @@ def judgeC16 (ops : List OpRec) : List String :=
     match op.toks with
     | ["client_new", _] => { s with client := {} }
     | "c" :: "set" :: opt :: vals => if op.result == "ok" then { s with client := s.client.set opt vals } else s
-    | "k" :: "set" :: opt :: vals => if op.result == "ok" then { s with cons := s.cons.map (·.set opt vals) } else s
+    | "k" :: "set" :: opt :: vals => if op.result == "ok" then
+        { s with cons := s.cons.map (·.set opt vals),
+                 consMaxBefore := if opt == "fetch_max_bytes" then (s.cons.map (·.maxBytes)).toList ++ s.consMaxBefore else s.consMaxBefore } else s
     | "p" :: "set" :: opt :: vals => if op.result == "ok" then { s with prod := s.prod.map (·.set opt vals) } else s
     | "consumer_create" :: from_ :: opts =>
       let base : Cfg := if from_ == "client" then s.client else {}
@@ -928,7 +933,7 @@ def judgeC16 (ops : List OpRec) : List String :=
           -- in force on the wire already during creation: client id in every header
           let s := reqs.foldl (fun s (_, r) => if r.header.clientId == some want.clientId then s
             else v s "C16-client-id-not-in-force" op s!"header client id {repr r.header.clientId}, configured {toHexTok want.clientId}") s
-          { s with cons := some want, consRetryLimit := ((lastOpt opts "retrylimit").bind (·.toInt?)).getD 0 }
+          { s with cons := some want, consMaxBefore := [], consRetryLimit := ((lastOpt opts "retrylimit").bind (·.toInt?)).getD 0 }
         else s
     | "producer_create" :: from_ :: opts =>
       let base : Cfg := if from_ == "client" then s.client else {}
@@ -962,7 +967,7 @@ def judgeC16 (ops : List OpRec) : List String :=
             let s := if mw == want.maxWait && mb == want.minBytes then s else v s "C16-fetch-settings" op s!"max_wait {mw} min_bytes {mb}, configured {want.maxWait} {want.minBytes}"
             let s := if r.header.clientId == some want.clientId then s else v s "C16-client-id-not-in-force" op "fetch header"
             -- (with a retry limit above the fetch size a partition may rightly be asked with more: C17's subject)
-            if s.consRetryLimit > want.maxBytes || (ts.all fun (_, ps) => ps.all fun p => p.maxBytes == want.maxBytes) then s else v s "C16-fetch-max-bytes" op s!"configured {want.maxBytes}"
+            if s.consRetryLimit > want.maxBytes || (ts.all fun (_, ps) => ps.all fun p => p.maxBytes == want.maxBytes || s.consMaxBefore.contains p.maxBytes) then s else v s "C16-fetch-max-bytes" op s!"configured {want.maxBytes}"
           | _ => s) s
       | none => s
     | "send_all" :: _ =>
